@@ -116,6 +116,14 @@ Proof.
   - destruct (m_id y =? id); auto.
 Qed.
 
+Lemma get_member_id ms id x : get_member ms id = Some x -> m_id x = id.
+Proof.
+  induction ms as [|y tl IH]; cbn; [discriminate|]. destruct (N.eqb_spec (m_id y) id); auto.
+  intros H; injection H as <-; auto.
+Qed.
+Lemma full_member_id applied m : m_id (full_member applied m) = m_id m.
+Proof. unfold full_member. destruct (get_member applied (m_id m)) eqn:E; auto. now apply get_member_id in E. Qed.
+
 Theorem removed_never_member_again c r : disjoint_ids c -> disjoint_ids (apply_req c r).
 Proof.
   destruct c as [applied removed]. intros Hd. destruct r as [m|m]; cbn [apply_req].
@@ -127,7 +135,7 @@ Proof.
     unfold apply_remove. intros x Hin. cbn in *. apply filter_In in Hin. destruct Hin as [Hin Hne].
     apply negb_true_iff in Hne. pose proof (Hd x Hin) as Hx. cbn in Hx.
     destruct (is_exist removed (m_id m)); auto.
-    rewrite is_exist_app, Hx. cbn. rewrite N.eqb_sym. exact Hne.
+    rewrite is_exist_app, Hx, full_member_id. cbn. rewrite N.eqb_sym. exact Hne.
 Qed.
 
 Theorem removed_never_member_again_run rs : forall c, disjoint_ids c -> disjoint_ids (fold_left apply_req rs c).
